@@ -24,9 +24,10 @@ ASSUMPTIONS = [
 ]
 BOUNDS = {"quick": {"depth": "<=2", "variables": "<=3", "symbolic numerals": "<=4"}, "thorough": {"depth": "<=3", "variables": "<=4", "symbolic numerals": "<=5"}}
 OPTS = {"quick": {"tier_budget_s": 220, "max_paths": 400, "job_budget_s": 40, "witness_rate": 0.3, "query_timeout_ms": 8000}, "thorough": {"tier_budget_s": 2400, "max_paths": 3000, "job_budget_s": 200, "query_timeout_ms": 20000}}
-REACH = {"quick": ["OK", "CONVEX", "SYNTAX", "prod:leq", "prod:geq", "prod:eq", "prod:abs", "prod:group", "prod:paren", "prod:arith", "prod:chain", "spelling", "mutant"]}
+REACH = {"quick": ["OK", "CONVEX", "SYNTAX", "prod:leq", "prod:geq", "prod:eq", "prod:abs", "prod:group", "prod:paren", "prod:arith", "prod:chain", "spelling", "mutant", "sequence"]}
 
 VARS = ["x", "y", "z", "w"]
+EXTRA_VARS = ["e5"]
 
 
 # ---- expression trees -----------------------------------------------------------------
@@ -466,6 +467,17 @@ def jobs(tier, seed):
         if i % 6 == 0:
             name, f = MUTANTS[(i // 6) % len(MUTANTS)]
             out.append({"kind": "mutant", "text": f(txt), "tree": None, "nnum": g.nnum, "tags": ["mutant:" + name], "expect": "SYNTAX"})
+    # two-step sequences: a string is parsed right after another one that differs from it only by white space inside
+    # what would otherwise be one number or identifier (the two readings differ)
+    seqs = [
+        ("x <= 1e5", "x <= 1 e5", ("leq", [[("", _v("x"))], [("", ("mul", ("lit", "1"), "e5", False))]]), None),
+        ("x - 1e1 y <= 2", "x - 1 e1 y <= 2", None, "SYNTAX"),
+        ("12x <= 3", "1 2x <= 3", None, "SYNTAX"),
+        ("-xy <= 1", "-x y <= 1", None, "SYNTAX"),
+        ("2x + y <= 3", "2 x+y<=3", ("leq", [[("", ("mul", ("lit", "2"), "x", False)), ("+", _v("y"))], [("", ("const", ("lit", "3")))]]), None),
+    ]
+    for first, second, tree, expect in seqs:
+        out.append({"kind": "sequence", "first": first, "text": second, "tree": tree, "nnum": 0, "tags": ["sequence"], "expect": expect})
     # concrete numerals in several spellings, several spacings: the same tree rendered repeatedly
     m = 40 if tier == "quick" else 500
     for i in range(m):
@@ -520,6 +532,12 @@ def run(ctx, job):
             shims.NUMERALS[ph(i)] = k
         ks.append(E.toz(k))
     text = job["text"]
+    if job["kind"] == "sequence":
+        ctx.tag("sequence")
+        try:
+            S.polyhedral_termlist_from_string(job["first"])
+        except Exception:
+            pass
     if ctx.mode == "real":
         # no shims in real mode: write the witness values into the text
         for i in reversed(range(job["nnum"])):
@@ -535,7 +553,7 @@ def run(ctx, job):
         cls = B.classify(e)
         ctx.expect("only-syntax-or-convexity-errors", False, info=cls + "@" + B.innermost_pacti_frame(e))
         return {"cls": cls}
-    if job["kind"] == "mutant":
+    if job["kind"] == "mutant" or (job["kind"] == "sequence" and job.get("expect") == "SYNTAX"):
         ctx.expect("malformed-string-raises-syntax-error", cls == "SYNTAX", info=text)
         return {"cls": cls}
     if cls == "SYNTAX":
@@ -573,7 +591,7 @@ def run(ctx, job):
             ctx.obligation("parsed-meaning-equals-written-relation", z3.Xor(parsed_formula(terms), ref.relation(tree)), info=text)
         else:
             # concrete replay: pacti computed the coefficients in floating point
-            names = sorted(set(VARS))
+            names = sorted(set(VARS + EXTRA_VARS))
             tau = E.q(1e-6)
             mag = z3.RealVal(1)
             for t in terms:
